@@ -754,6 +754,35 @@ func genC04(o *out, r *rng, thorough bool) {
 			}
 		}
 	}
+	// "consequently every geometric predicate returns the same answer under every index kind and
+	// build threshold": the same pair of shapes under several index configurations
+	np := 250
+	if thorough {
+		np = 6000
+	}
+	for i := 0; i < np; i++ {
+		u := r.pick([]int{16, 32})
+		a := genPoly(r, u)
+		if r.coin(0.2) {
+			a = genProbe(r, a, u)
+		}
+		b := genProbe(r, a, u)
+		cfgs := [][2]int{{0, 0}, {1, 1}, {2, 1}, {1, 3}, {2, 4}}
+		g := o.newGroup()
+		g2 := o.newGroup()
+		for k, ca := range cfgs {
+			cb := cfgs[(k*2+1)%len(cfgs)]
+			ida, idb := o.newID("P"), o.newID("P")
+			o.op("def %s %s", ida, a.defStr(ca[0], ca[1]))
+			o.op("def %s %s", idb, b.defStr(cb[0], cb[1]))
+			o.op("same %d pred %s %s", g, ida, idb)
+			o.op("same %d pred %s %s", g2, idb, ida)
+		}
+		if i%30 == 29 {
+			o.op("reset")
+		}
+	}
+	o.op("reset")
 	// beyond E: arbitrary doubles, checked directly on the implementation (search = filter)
 	nx := 300
 	if thorough {
